@@ -73,10 +73,18 @@ def gen_uuid(rng: random.Random, widths=(2, 4, 16)) -> bytes:
     return rnd_bytes(rng, 16)
 
 
+# optional refinement supplied by the check: fn(le_bytes) -> suffix or ''
+UUID_CLASS_HOOK = None
+
+
 def uuid_class(u: bytes) -> str:
     if len(u) == 16:
-        return 'uuid128-base' if u[:12] == BASE_UUID_LE else 'uuid128'
-    return f'uuid{len(u) * 8}'
+        c = 'uuid128-base' if u[:12] == BASE_UUID_LE else 'uuid128'
+    else:
+        c = f'uuid{len(u) * 8}'
+    if UUID_CLASS_HOOK is not None:
+        c += UUID_CLASS_HOOK(bytes(u))
+    return c
 
 
 def uuid_expand(u: bytes) -> bytes:
@@ -646,6 +654,27 @@ L2CAP_SIG = {
 
 def l2cap_sig_bytes(code, identifier, payload: bytes) -> bytes:
     return bytes([code, identifier]) + struct.pack('<H', len(payload)) + payload
+
+
+def crc16_l2cap(data: bytes) -> int:
+    """FCS of Vol 3 Part A 3.3.5: g(D) = D^16 + D^15 + D^2 + 1, register initially 0,
+    octets fed least significant bit first (bitwise, no table)"""
+    reg = 0
+    for b in data:
+        for i in range(8):
+            bit = ((b >> i) & 1) ^ (reg & 1)
+            reg >>= 1
+            if bit:
+                reg ^= 0xA001
+    return reg
+
+
+def l2cap_pdu(cid, payload: bytes, with_fcs=False) -> bytes:
+    """length U16 LE (information payload + FCS when present) | CID | payload | [FCS LE]"""
+    body = struct.pack('<HH', len(payload) + (2 if with_fcs else 0), cid) + payload
+    if with_fcs:
+        body += struct.pack('<H', crc16_l2cap(body))
+    return body
 
 
 def ertm_i(tx_seq, req_seq, sar, final) -> bytes:
